@@ -34,6 +34,9 @@ def run_shard(ctx):
     L = layout()
     q = ctx.quick()
     ctx.run_plain(lambda: synthetic_part(ctx, 7 if q else 9), "synthetic")
+    from .common import primitive_sweep
+
+    ctx.run_plain(lambda: primitive_sweep(ctx, L, lambda t, data, ok: judge_c07(ctx, L, t, None, False, data, "primitive-sweep")), "primitive-sweep")
     ctx.run_given(arb.faulted_input(L), lambda x: judge_c07(ctx, L, x[0], x[1], x[2], x[3], "faulted"), ctx.share(9000 if q else 150000), name="faulted")
     ctx.run_given(arb.arbitrary_input(L), lambda x: judge_c07(ctx, L, x[0], x[1], x[2], x[3], x[4]), ctx.share(6000 if q else 100000), name="arbitrary")
     ctx.run_given(gen.messages(L), lambda c: judge_c07(ctx, L, c.type, c.cc, c.enc, c.data, "wellformed"), ctx.share(1500 if q else 20000), name="wellformed")
